@@ -92,3 +92,32 @@ prop('C13', 'pser', 'exploration',
      'property-based round-trip + differential testing against an independent frozen-layout decoder; guarded read-only memory',
      'generated-input search with independent decoder and memory-protection instruments',
      'trusted: my reading of the CRoaring frozen layout comment, anchored on testfrozendata/*', SER_ASSUME)
+
+POOL_RULES = ('rapid state machine over a pool of <=6 live bitmaps, each with its own model: rules new (any spec/form, optionally on the keys of an existing member), Clone, static And/Or/Xor/AndNot, static Flip, AddOffset64, FastOr/HeapOr/HeapXor/FastAnd/ParOr/ParHeapOr/ParAnd over lists drawn from the pool (duplicates, empties, worker counts 0..7), '
+              'in-place And/Or/Xor/AndNot (incl. self), AndAny, point/range/bulk mutations aimed at chunk keys that several members have in common, SetCopyOnWrite (never on zero-copy lineage), RunOptimize, CloneCopyOnWriteContainers')
+
+prop('C07', 'p32', 'exploration',
+     POOL_RULES + '. Invariant after EVERY step: every pool member equals its own model (so interference in any direction is caught where it happens), the caller\'s argument slice is unchanged, no function returns one of its inputs, '
+     'and (structural, hook) no backing array is reachable from two live bitmaps unless both slots carry the copy-on-write flag. A second machine does the same for roaring64. '
+     'Non-trivial = the history mutates a bitmap inside a chunk key that it has in common with a bitmap it was derived from / that was derived from it; distinct = FNV-64 of the op list',
+     T(4, 250, 16, 4000),
+     'model-based stateful property testing over a pool of bitmaps (rapid state machine) + structural sharing invariant via hook',
+     'generated histories with a per-bitmap model; bounded length; no proof of absence',
+     'trusted: interval-set model; the verif hook exposes backing-array addresses and flags read-only', COMMON_ASSUME, run='^TestC07')
+
+prop('C09', 'p32', 'exploration',
+     POOL_RULES + ', plus portable/frozen write->read round trips that replace a member; histories start from the empty bitmap. Invariant after every step, for every member: Validate()==nil AND independently of Validate: hook walk (ascending keys, no empty chunk, arrays <=4096, bitmaps >4096) '
+     'and strict independent decode of ToBytes() (cardinality fields == popcount, arrays strictly increasing, runs sorted/non-overlapping/NON-ADJACENT/in range); ToBytes failing is itself a violation. '
+     'Non-trivial = some step changed the kind signature of the pool (a chunk changed kind, appeared or disappeared); distinct = FNV-64 of the op list',
+     T(4, 250, 16, 4000),
+     'stateful property testing of a data-structure invariant (rapid state machine), with an oracle independent of Validate()',
+     'generated histories; invariant checked after every step by Validate() and by an independent structural walk',
+     'trusted: independent portable decoder; hook for the in-memory walk', SER_ASSUME)
+
+prop('C14', 'p32', 'exploration',
+     POOL_RULES + ', plus serialization round trips; histories start from the empty bitmap. Invariant after every step, for every member, before and after RunOptimize (on a clone): with N=cardinality and x in {max+1, max+2, next chunk edge, +1 chunk, 2^32}: '
+     'GetSerializedSizeInBytes <= 8+9*ceil(x/65536)+2N and <= BoundSerializedSizeInBytes(N,x), and len(ToBytes()) == GetSerializedSizeInBytes. '
+     'Non-trivial = a non-empty member holds a run or bitmap chunk; distinct = FNV-64 of the op list',
+     T(4, 250, 16, 4000),
+     'stateful property testing of a size bound (rapid state machine)',
+     'generated histories; bound evaluated after every step', 'trusted: the bound formula as printed in README / BoundSerializedSizeInBytes', COMMON_ASSUME)
